@@ -9,6 +9,12 @@ From PVBridge Require Import SelectBridge C16Main.
 Theorem C11_pool_regenerated : gen_pool_shape = true.
 Proof. reflexivity. Qed.
 
+(* helpers.get_pool_results REGENERATED (the loop `for i in as_completed(futures): res.append(i.result())`): exactly the futures' results, each once, in the
+   completion order - whatever that order is *)
+Theorem C11_get_pool_results_regenerated : forall A (pool_perm : list A -> list A) futures,
+  gen_get_pool_results A pool_perm futures = pool_perm futures.
+Proof. exact get_pool_results_bridge. Qed.
+
 (* for every completion order: no pooled evaluation is lost, none is duplicated; per-result guarantees carry over *)
 Theorem C11_no_loss_no_dup : forall X (pool_perm : list X -> list X), (forall l, Permutation l (pool_perm l)) ->
   forall results, Permutation results (pool_perm results) /\ length (pool_perm results) = length results.
@@ -46,6 +52,7 @@ Theorem C11_pooled_greedy : forall A cost copy pool_perm,
 Proof. exact greedy_population_correct. Qed.
 
 Print Assumptions C11_pool_regenerated.
+Print Assumptions C11_get_pool_results_regenerated.
 Print Assumptions C11_no_loss_no_dup.
 Print Assumptions C11_pooled_initial_population.
 Print Assumptions C11_worker_draws_duplicate.
